@@ -8,6 +8,7 @@ import CheetahModel.DriverSC
 import CheetahModel.DriverSer
 import CheetahModel.DriverText
 import CheetahModel.DriverNx
+import CheetahModel.DriverRev
 /-!
 # Line-protocol driver
 
@@ -42,6 +43,10 @@ def handle (line : String) : String :=
     match DrvText.run rest with
     | some out => out
     | none => "ERR txt-parse"
+  | "rev" :: rest =>
+    match DrvRev.run rest with
+    | some out => out
+    | none => "ERR rev-parse"
   | op :: args =>
     match args.mapM parseF with
     | none => s!"ERR bad-arg {op}"
